@@ -1,3 +1,9 @@
-(* registry.ml — function tag -> model adapter *)
+(* registry.ml — function tag -> model adapter.
+   A plain adapter maps the arguments to the model's observation string, which
+   must equal the implementation's.  A judge also receives the implementation's
+   observation and answers "OK" or a description of what is not admissible (for
+   specifications that are relations, e.g. map iteration order). *)
 let table : (string, string list -> string) Hashtbl.t = Hashtbl.create 64
+let judges : (string, string list -> string -> string) Hashtbl.t = Hashtbl.create 16
 let register (name : string) (f : string list -> string) = Hashtbl.replace table name f
+let register_judge (name : string) (f : string list -> string -> string) = Hashtbl.replace judges name f
